@@ -124,10 +124,52 @@ def POST_INSTALL():
     import sys
     import autoarray.dataset.grids  # noqa  (hashed in FUNCTIONS)
     sys.set_int_max_str_digits(0)    # solver models may contain very long numerals
+    # repository code may use pixel scales / sub sizes inside dict or tuple keys (memo tables): proxies get a constant hash so
+    # that key equality is decided by the symbolic == (a path decision) instead of raising "unhashable"
+    V.SymReal.__hash__ = lambda self: 7919
+    V.SymInt.__hash__ = lambda self: 7919
+    fresh_process()
 
 
 def _known_ids():
     return [k for k in os.environ.get("VERIF_KNOWN", "").split(",") if k]
+
+
+# ------------------------------------------------------------------------------------------------ one body call = one fresh process
+
+STATE_MODULES = ("autoarray.operators.over_sampling", "autoarray.structures.grids.uniform_2d", "autoarray.dataset.grids",
+                 "autoarray.structures.decorators", "autoarray.mask.mask_2d")
+_SNAP = {}
+
+
+def fresh_process():
+    """Every execution of a body (one symbolic path, one native validation run, one replay) stands for a history that starts in a
+    fresh interpreter.  The worker processes are reused for thousands of paths, so module-level mutable state of the modules under
+    test (memo dictionaries, lists, sets, lru caches) is put back to its import-time content before each body; within one body
+    the state evolves as in the real process (that is what the two/three-step histories exercise)."""
+    import sys
+    for name, mod in list(sys.modules.items()):
+        if mod is None or not any(name == m or name.startswith(m + ".") for m in STATE_MODULES):
+            continue
+        for k, val in list(vars(mod).items()):
+            if k.startswith("__"):
+                continue
+            if isinstance(val, (dict, list, set)):
+                key = (name, k)
+                if key not in _SNAP:
+                    _SNAP[key] = (val, val.copy())
+                obj, content = _SNAP[key]
+                if obj is val:
+                    if isinstance(val, list):
+                        val[:] = content
+                    else:
+                        val.clear()
+                        val.update(content)
+            elif callable(getattr(val, "cache_clear", None)):
+                try:
+                    val.cache_clear()
+                except Exception:  # noqa
+                    pass
 
 
 # ------------------------------------------------------------------------------------------------ reference (independent of the repo)
@@ -261,6 +303,7 @@ def _shape(H, W, mask_name):
 # ------------------------------------------------------------------------------------------------ (1) kernels
 
 def body_kernels(inp, H, W, pattern):
+    fresh_process()
     from autoarray.operators.over_sampling import over_sample_util as ou
     mask = np.array(inp["mask"], dtype=bool).reshape(H, W)
     oy, ox = inp["origin"]
@@ -313,11 +356,42 @@ def _sampler_sub_size(aa, m, mask, pattern):
     return aa.Array2D(values=np.array(subs), mask=m)
 
 
+def history(inp):
+    """three over-samplings in ONE process: A = (origin, scales); B = same bits / scales / sub-sizes, another origin;
+    C = B's origin, other scales.  Every clause is checked for each of them (state carried between over-samplers -
+    memo tables, class-level caches - must not leak from one mask into the next)."""
+    return [("", inp["origin"], inp["scales"]), ("B:", inp["origin2"], inp["scales"]), ("C:", inp["origin2"], inp["scales2"])]
+
+
+def _history_inputs(ctx, geom, inputs):
+    if GEOMS[geom] is None or GEOMS[geom] == "both":
+        sy2, sx2 = V.real("sy2"), V.real("sx2")
+        lo, hi = V.rval(0.125), V.rval(8.0)
+        ctx.assume(z3.And(sy2.t >= lo, sy2.t <= hi, sx2.t >= lo, sx2.t <= hi))
+        inputs["scales2"] = [sy2, sx2]
+        inputs["origin2"] = [0.0, 0.0] if GEOMS[geom] is None else [V.real("oy2"), V.real("ox2")]
+    else:
+        nxt = {"g0": "g1", "g1": "g2", "g2": "g0"}[geom]
+        inputs["scales2"] = [float(GEOMS[nxt][0]), float(GEOMS[nxt][1])]
+        inputs["origin2"] = [V.real("oy2"), V.real("ox2")]
+    return inputs
+
+
 def body_sampler(inp, H, W, pattern):
+    fresh_process()
+    A, E = {}, {}
+    for tag, (oy, ox), (sy, sx) in history(inp):
+        a, e = _sampler_step(inp, H, W, pattern, oy, ox, sy, sx)
+        for k in e:
+            E[tag + k] = e[k]
+            if k in a:
+                A[tag + k] = a[k]
+    return A, E
+
+
+def _sampler_step(inp, H, W, pattern, oy, ox, sy, sx):
     import autoarray as aa
     mask = np.array(inp["mask"], dtype=bool).reshape(H, W)
-    oy, ox = inp["origin"]
-    sy, sx = inp["scales"]
     a0, a1, a2 = inp["affine"]
     pos = ref_pixels(mask)
     subs = sub_map(mask, pattern)
@@ -390,7 +464,7 @@ def body_sampler(inp, H, W, pattern):
     return A, E
 
 
-TOL = {"sub_pixel_areas": 1e-9, "areas_sum_to_unmasked_area": 1e-9, "affine_reproduced_at_centres": 1e-9}
+TOL = {t + k: 1e-9 for t in ("", "B:", "C:") for k in ("sub_pixel_areas", "areas_sum_to_unmasked_area", "affine_reproduced_at_centres")}
 
 
 def case_sampler(ctx, H, W, pattern, geom, mask_name=None):
@@ -400,17 +474,28 @@ def case_sampler(ctx, H, W, pattern, geom, mask_name=None):
     ctx.set_case(mask=mask.tolist())
     inputs = {"mask": mask, "origin": origin, "scales": scales, "v": V.real_array("v", (_cap(H, W, pattern),)),
               "affine": [V.real("a0"), V.real("a1"), V.real("a2")] if geom != "both" else [0.5, 2.0, -1.5], "ftab": []}
+    _history_inputs(ctx, geom, inputs)
     hx.run_body(ctx, body_sampler, inputs, {"H": H, "W": W, "pattern": pattern}, validate_every=16, tol=TOL)
 
 
 # ------------------------------------------------------------------------------------------------ (3) the over_sample decorator
 
 def body_decorator(inp, H, W, pattern, route):
+    fresh_process()
+    A, E = {}, {}
+    for tag, (oy, ox), (sy, sx) in history(inp):
+        a, e = _decorator_step(inp, H, W, pattern, route, oy, ox, sy, sx)
+        for k in e:
+            E[tag + k] = e[k]
+            if k in a:
+                A[tag + k] = a[k]
+    return A, E
+
+
+def _decorator_step(inp, H, W, pattern, route, oy, ox, sy, sx):
     import autoarray as aa
     from autoarray.operators.over_sampling.grid_oversampled import Grid2DOverSampled
     mask = np.array(inp["mask"], dtype=bool).reshape(H, W)
-    oy, ox = inp["origin"]
-    sy, sx = inp["scales"]
     pos = ref_pixels(mask)
     subs = sub_map(mask, pattern)
     F = UserF(inp["ftab"])
@@ -471,6 +556,7 @@ def case_decorator(ctx, H, W, pattern, geom, route, mask_name=None):
     inputs = {"mask": mask, "origin": origin, "scales": scales, "ftab": []}
     if route == "values":
         inputs["gv"] = V.real_array("gv", (H * W, 2))
+    _history_inputs(ctx, geom, inputs)
     hx.run_body(ctx, body_decorator, inputs, {"H": H, "W": W, "pattern": pattern, "route": route}, validate_every=16)
 
 
@@ -511,6 +597,11 @@ def body_iterate(inp, H, W, steps, rel_set, route):
     rel = inp["rel"][0] if rel_set else None
     pos = ref_pixels(mask)
     F = UserF(inp["ftab"])
+    fresh_process()
+    # history: the same mask bits / scales / sub-sizes were over-sampled earlier in this process at ANOTHER origin
+    m0 = aa.Mask2D(mask=mask, pixel_scales=(sy, sx), origin=(oy + 0.5, ox - 0.25))
+    for n in [1] + list(steps):
+        hx.attempt(lambda: aa.OverSamplerUniform(mask=m0, sub_size=n).over_sampled_grid)
     m = aa.Mask2D(mask=mask, pixel_scales=(sy, sx), origin=(oy, ox))
     A, E = {}, {}
     if route == "sampler":
